@@ -3,6 +3,11 @@ import Eru.CpuMem.ProofsSpec
 /-
 C05 — CPU-bound instances receive exactly the CPU amount requested.
 Property theorems only; helper lemmas live in Eru/CpuMem/Proofs*.lean.
+
+Scope: the theorems are about requests expressible at the share base's precision (`request·B` is a
+whole number `k` of pieces — the property's quantifier); for those the pieces are *exactly* `k`.
+The oracle additionally evaluates the weaker `nearestPieces` clause (|pieces − request·B| ≤ 1/2) on
+requests that are not expressible (e.g. 0.005 cores at share base 100), where "exactly" has no meaning.
 -/
 namespace Eru.Props.C05
 open Eru Eru.CpuMem Eru.Float64
@@ -78,6 +83,123 @@ theorem recorded_agrees (info : NodeInfo) (origin : CpuMap) (B : Nat) (maxShare 
   unfold piecesRequest
   simp only [Int.toNat_natCast]
   rw [piecesRound_exact k B hk hk2 hB]
+
+/-- a CPU request of `cpuReq` thousandths that is expressible at share base `B` as `k` pieces -/
+def Expressible (cpuReq B : Int) (k : Nat) : Prop := 1 ≤ k ∧ k ≤ 2 ^ 50 ∧ cpuReq * B = (k : Int) * 1000
+
+theorem pieces_of_expressible (r : Req) (cpuReq B : Int) (k : Nat) (hB : 1 ≤ B) (he : Expressible cpuReq B k)
+    (h1 : r.cpuNum = cpuReq.toNat) (h2 : r.cpuDen = 1000) : piecesRequest r B = (k : Int) := by
+  obtain ⟨hk1, hk2, heq⟩ := he
+  have hBn : (B.toNat : Int) = B := Int.toNat_of_nonneg (by omega)
+  have hc0 : 0 ≤ cpuReq := by
+    rcases Int.lt_or_le cpuReq 0 with hneg | hpos
+    · exfalso
+      have : cpuReq * B < 0 := Int.mul_neg_of_neg_of_pos hneg (by omega)
+      omega
+    · exact hpos
+  have hcn : (cpuReq.toNat : Int) = cpuReq := Int.toNat_of_nonneg hc0
+  unfold piecesRequest
+  rw [h1, h2]
+  have hab : cpuReq.toNat * B.toNat = k * 1000 := by
+    have : ((cpuReq.toNat * B.toNat : Nat) : Int) = ((k * 1000 : Nat) : Int) := by push_cast; rw [hcn, hBn]; exact heq
+    exact_mod_cast this
+  rw [piecesRound_exact' cpuReq.toNat 1000 B.toNat k (by omega) hk1 hk2 (by omega) hab]
+
+/-- **deploy_recorded_agrees** (the property's second sentence at workload level): every workload of a
+    bound deployment records the validated request, and the pieces of its CPU map total exactly
+    `recorded request × share base`; in particular the oracle's clause `C05:recorded` holds. -/
+theorem deploy_recorded_agrees (info : NodeInfo) (B maxShare count : Int) (raw w : RawReq) (order : List String)
+    (ws : List Workload) (k : Nat) (hB : 1 ≤ B)
+    (hck : info.cap.cpuMap.keys.Nodup) (hnk : (info.cap.numa.map (·.1)).Nodup) (hord : order.Nodup)
+    (hraw : raw.validate = .ok w) (hbind : w.bind = true) (hex : Expressible w.cpuReq B k)
+    (h : calculateDeploy info B maxShare count raw order = .ok ws) :
+    ∀ x ∈ ws, x.cpuReq = w.cpuReq ∧ planTotal x.cpuMap = (k : Int) ∧
+      nearestPieces x.cpuReq.toNat 1000 B (planTotal x.cpuMap) = true := by
+  have hpieces : piecesRequest w.toReq B = (k : Int) := pieces_of_expressible _ w.cpuReq B k hB hex rfl rfl
+  unfold calculateDeploy at h
+  rw [hraw] at h
+  simp only [hbind, if_true] at h
+  unfold allocByCPU at h
+  split at h
+  · rename_i plans hpl
+    split at h
+    · cases h
+    · split at h
+      · cases h
+      · cases h
+        intro x hx
+        obtain ⟨p, hp, rfl⟩ := List.mem_map.mp hx
+        have hs := (plan_shape info [] B maxShare w.toReq order plans hB hck hnk hord hpl p (List.mem_of_mem_take hp)).2
+        rw [hpieces] at hs
+        refine ⟨rfl, hs, ?_⟩
+        simp only [hs]
+        unfold nearestPieces
+        obtain ⟨_, _, heq⟩ := hex
+        have hc0 : 0 ≤ w.cpuReq := by
+          rcases Int.lt_or_le w.cpuReq 0 with hneg | hpos
+          · exfalso
+            have : w.cpuReq * B < 0 := Int.mul_neg_of_neg_of_pos hneg (by omega)
+            omega
+          · exact hpos
+        have hcn : (w.cpuReq.toNat : Int) = w.cpuReq := Int.toNat_of_nonneg hc0
+        simp only [decide_eq_true_eq]
+        rw [hcn, heq]
+        simp
+  all_goals cases h
+
+theorem planTotal_set (m : Eru.Plan) (k : String) (v : Int) : planTotal (m.set k v) = planTotal m - m.get k + v := by
+  unfold planTotal
+  induction m with
+  | nil => simp [Plan.set, Plan.get]
+  | cons p rest ih =>
+    obtain ⟨a, b⟩ := p
+    simp only [Plan.set, Plan.get]
+    by_cases h : a = k
+    · simp only [h, if_true, List.map_cons, List.sum_cons]; omega
+    · simp only [h, if_false, List.map_cons, List.sum_cons, ih]; omega
+
+theorem planTotal_mapSub (a b : Eru.Plan) : planTotal (mapSub a b) = planTotal a - planTotal b := by
+  unfold mapSub
+  induction b generalizing a with
+  | nil => simp [planTotal]
+  | cons kv rest ih =>
+    simp only [List.foldl_cons]
+    rw [ih, Plan.add, planTotal_set]
+    simp only [planTotal, List.map_cons, List.sum_cons]; omega
+
+/-- **realloc_recorded_agrees**: a successful bound `CalculateRealloc` (any deltas; `w` is the validated
+    summed request, expressible as `k` pieces) records the validated request and hands out exactly
+    `k` pieces (`C05:recorded:realloc`); and if the old record was consistent (`k₀` pieces), the delta
+    resource is consistent too: `Δcpu_request × B = 1000 · Σ Δpieces` (`C05:recorded:realloc-delta`). -/
+theorem realloc_recorded_agrees (info : NodeInfo) (B maxShare : Int) (origin : Workload) (raw w : RawReq) (order : List String)
+    (w' : Workload) (k k0 : Nat) (hB : 1 ≤ B)
+    (hck : info.cap.cpuMap.keys.Nodup) (hnk : (info.cap.numa.map (·.1)).Nodup) (hord : order.Nodup)
+    (hbind : (reallocReq origin raw).bind = true) (hv : (reallocReq origin raw).validate = .ok w)
+    (hex : Expressible w.cpuReq B k)
+    (h : calculateRealloc info B maxShare origin raw order = .ok w') :
+    w'.cpuReq = w.cpuReq ∧ planTotal w'.cpuMap = (k : Int) ∧
+    (origin.cpuReq * B = (k0 : Int) * 1000 → planTotal origin.cpuMap = (k0 : Int) →
+      (reallocDelta origin w').cpuReq * B = 1000 * planTotal (reallocDelta origin w').cpuMap) := by
+  have hpieces : piecesRequest w.toReq B = (k : Int) := pieces_of_expressible _ w.cpuReq B k hB hex rfl rfl
+  unfold calculateRealloc at h
+  split at h
+  · cases h
+  · unfold reallocCore at h
+    rw [hv] at h
+    simp only [hbind, if_true] at h
+    split at h
+    · cases h
+    · rename_i p rest hg
+      cases h
+      have hs := (plan_shape (givenBack info origin) origin.cpuMap B maxShare w.toReq order _ hB hck hnk hord hg p
+        (List.mem_cons_self ..)).2
+      rw [hpieces] at hs
+      refine ⟨rfl, hs, ?_⟩
+      intro ho1 ho2
+      simp only [reallocDelta]
+      rw [planTotal_mapSub, hs, ho2, Int.sub_mul, ho1, hex.2.2]
+      omega
+    all_goals cases h
 
 /-- every fragment plan is one core carrying exactly `fragment` pieces -/
 theorem fragment_plan_shape (cores : List Core) (fragment : Int) (p : CpuMap)
